@@ -472,14 +472,21 @@ def values_of(s, tspecs):
 # ----------------------------------------------------------------------------
 # one call of a real operator
 # ----------------------------------------------------------------------------
-def run_call(opspec, tspecs, pspecs, rs):
-    problem = build_problem(tspecs)
+def run_call(opspec, tspecs, pspecs, rs, op=None, problem=None):
+    """One call of the real operator.  op: an operator INSTANCE to reuse (None = build a fresh one);
+    problem: a Problem OBJECT to reuse, its types being re-declared in place (None = a new Problem)."""
+    if problem is None or problem.nvars != len(tspecs):
+        problem = build_problem(tspecs)
+    else:
+        for i, ts in enumerate(tspecs):
+            problem.types[i] = build_type(ts)
     parents = [build_solution(problem, ps, tspecs) for ps in pspecs]
     inst = make_rng(rs)
     rec = Recorder()
     res = {"exc": None, "children": None, "next": 0}
     with patched(inst, rec):
-        op = build_op(opspec)       # Multimethod's constructor draws: under the seeded source, log discarded
+        if op is None:
+            op = build_op(opspec)   # Multimethod's constructor draws: under the seeded source, log discarded
         rec.tape.clear()
         rec.iszero.clear()
         rec.clips.clear()
@@ -494,6 +501,7 @@ def run_call(opspec, tspecs, pspecs, rs):
         after = [snapshot(p) for p in parents]
         if opspec["name"] == "Multimethod" and res["exc"] is None:
             res["next"] = op.next_variator
+    res["op"] = op
     res["tape"] = list(rec.tape)
     res["iszero"] = rec.iszero
     res["clips"] = rec.clips
@@ -726,8 +734,8 @@ def t_subset(rng):
 TGEN = {"Real": t_real, "Binary": t_binary, "Permutation": t_perm, "Subset": t_subset}
 
 
-def gen_types(rng, own, foreign_ok=True, nmax=4, small=False):
-    n = rng.randrange(1, nmax + 1)
+def _gen_types(rng, own, foreign_ok=True, nmax=4, small=False, n=None):
+    n = n or rng.randrange(1, nmax + 1)
     kinds = [rng.choice(own)]
     while len(kinds) < n:
         if foreign_ok and rng.random() < 0.3:
@@ -867,13 +875,17 @@ def has(tspecs, *kinds):
     return any(t["k"] in kinds for t in tspecs)
 
 
-def gen_case(rng, opname):
-    """-> (opspec, tspecs, pspecs, style, malformed)"""
+def gen_case(rng, opname, fixed=None, nvars=None):
+    """-> (opspec, tspecs, pspecs, style, malformed)
+    fixed: the spec of an EXISTING operator instance that is being reused on a new problem (only the problem and
+    the parents are generated); nvars: force the number of variables (same shape as the previous problem)."""
     malformed = False
+    def gen_types(r, own, **kw):      # local override threading nvars into the module-level generator
+        return _gen_types(r, own, n=nvars, **kw)
     if opname in ("PM", "UM"):
         ts = gen_types(rng, ["Real"])
-        sp = {"name": opname, "probability": rng.choice(PROBS + [1, 2])}
-        if opname == "PM":
+        sp = fixed or {"name": opname, "probability": rng.choice(PROBS + [1, 2])}
+        if opname == "PM" and fixed is None:
             sp["distribution_index"] = rng.choice([20.0, 0.5, 100.0, 0.0])
         if opname == "UM":
             for t in ts:     # rejected configuration for UM: ub - lb overflows (random.uniform itself leaves the range)
@@ -883,42 +895,44 @@ def gen_case(rng, opname):
         return sp, ts, gen_parents(rng, ts, rng.choice([1, 1, 2]), st), st, malformed
     if opname in ("UniformMutation", "NonUniformMutation"):
         ts = gen_types(rng, ["Real"], foreign_ok=False)
-        sp = {"name": opname, "probability": prob_for(rng, True), "perturbation": rng.choice([0.5, 0.1, 5.0])}
-        if opname == "NonUniformMutation":
+        sp = fixed or {"name": opname, "probability": prob_for(rng, True), "perturbation": rng.choice([0.5, 0.1, 5.0])}
+        if opname == "NonUniformMutation" and fixed is None:
             sp.update(nfe=rng.choice([0, 100, 500, 10000]), swarm_size=10, max_iterations=rng.choice([1, 50]))
         st = rng.choice(["random", "bound", "grid"])
         return sp, ts, gen_parents(rng, ts, rng.choice([1, 2]), st), st, malformed
     if opname == "SBX":
         ts = gen_types(rng, ["Real"])
-        sp = {"name": "SBX", "probability": prob_for(rng, True), "distribution_index": rng.choice([15.0, 0.5, 100.0, 0.0])}
+        sp = fixed or {"name": "SBX", "probability": prob_for(rng, True), "distribution_index": rng.choice([15.0, 0.5, 100.0, 0.0])}
         st = rng.choice(["random", "random", "bound", "identical", "near", "grid"])
         return sp, ts, gen_parents(rng, ts, 2, st), st, malformed
     if opname == "DE":
         ts = gen_types(rng, ["Real"], foreign_ok=False)
-        sp = {"name": "DE", "probability": rng.choice([0.1, 0.5, 1.0, 0.0, 0.25]), "step_size": rng.choice([0.5, 1.0, 2.0])}
+        sp = fixed or {"name": "DE", "probability": rng.choice([0.1, 0.5, 1.0, 0.0, 0.25]), "step_size": rng.choice([0.5, 1.0, 2.0])}
         st = rng.choice(["random", "bound", "identical", "grid"])
         return sp, ts, gen_parents(rng, ts, 4, st), st, malformed
     if opname in ("PCX", "UNDX", "SPX"):
         ts = gen_types(rng, ["Real"], foreign_ok=False, nmax=3, small=True)
         k = rng.choice([2, 2, 3, 3, 4, 5]) if opname != "SPX" else rng.choice([1, 2, 3, 4])
-        sp = {"name": opname, "nparents": k, "noffspring": rng.choice([1, 2, 3])}
-        if opname == "SPX":
+        if fixed is not None:
+            k = fixed["nparents"]
+        sp = fixed or {"name": opname, "nparents": k, "noffspring": rng.choice([1, 2, 3])}
+        if opname == "SPX" and fixed is None:
             sp["expansion"] = rng.choice([None, 1.0, 3.0])
         st = rng.choice(["random", "grid", "grid", "identical", "centroid", "collinear", "bound"])
         return sp, ts, gen_vector_parents(rng, ts, k, st), st, malformed
     if opname in ("BitFlip", "HUX"):
         ts = gen_types(rng, ["Binary"])
-        sp = {"name": opname, "probability": rng.choice(PROBS + [1, 3]) if opname == "BitFlip" else prob_for(rng, True)}
+        sp = fixed or {"name": opname, "probability": rng.choice(PROBS + [1, 3]) if opname == "BitFlip" else prob_for(rng, True)}
         st = rng.choice(["random", "bound", "identical", "complement"])
         return sp, ts, gen_parents(rng, ts, 2 if opname == "HUX" else rng.choice([1, 2]), st), st, malformed
     if opname in ("Swap", "Insertion", "PMX"):
         ts = gen_types(rng, ["Permutation"])
-        sp = {"name": opname, "probability": prob_for(rng, True)}
+        sp = fixed or {"name": opname, "probability": prob_for(rng, True)}
         st = rng.choice(["random", "random", "bound", "identical", "complement"])
         return sp, ts, gen_parents(rng, ts, 2 if opname == "PMX" else rng.choice([1, 2]), st), st, malformed
     if opname in ("Replace", "SSX"):
         ts = gen_types(rng, ["Subset"])
-        sp = {"name": opname, "probability": prob_for(rng, True)}
+        sp = fixed or {"name": opname, "probability": prob_for(rng, True)}
         st = rng.choice(["random", "random", "identical", "complement"])
         k = 2 if opname == "SSX" else rng.choice([1, 2])
         if opname == "SSX" and rng.random() < 0.25:
@@ -926,25 +940,27 @@ def gen_case(rng, opname):
         return sp, ts, gen_parents(rng, ts, k, st), st, malformed
     if opname == "GAOperator":
         fam = rng.choice(["real", "bin", "perm", "sub", "de"])
+        if fixed is not None:
+            fam = {"SBX": "real", "DE": "de", "HUX": "bin", "PMX": "perm", "SSX": "sub"}[fixed["variation"]["name"]]
         if fam == "real":
             ts = gen_types(rng, ["Real"])
-            sp = {"name": "GAOperator", "variation": {"name": "SBX", "probability": prob_for(rng, False)},
+            sp = fixed or {"name": "GAOperator", "variation": {"name": "SBX", "probability": prob_for(rng, False)},
                   "mutation": {"name": "PM", "probability": rng.choice([1, 0.5, 1.0])}}
         elif fam == "de":
             ts = gen_types(rng, ["Real"], foreign_ok=False)
-            sp = {"name": "GAOperator", "variation": {"name": "DE", "probability": 0.5},
+            sp = fixed or {"name": "GAOperator", "variation": {"name": "DE", "probability": 0.5},
                   "mutation": {"name": "PM", "probability": rng.choice([1, 0.5])}}
         elif fam == "bin":
             ts = gen_types(rng, ["Binary"])
-            sp = {"name": "GAOperator", "variation": {"name": "HUX", "probability": prob_for(rng, False)},
+            sp = fixed or {"name": "GAOperator", "variation": {"name": "HUX", "probability": prob_for(rng, False)},
                   "mutation": {"name": "BitFlip", "probability": rng.choice([1, 0.5])}}
         elif fam == "perm":
             ts = gen_types(rng, ["Permutation"])
-            sp = {"name": "GAOperator", "variation": {"name": "PMX", "probability": prob_for(rng, False)},
+            sp = fixed or {"name": "GAOperator", "variation": {"name": "PMX", "probability": prob_for(rng, False)},
                   "mutation": {"name": rng.choice(["Swap", "Insertion"]), "probability": rng.choice([0.3, 1.0])}}
         else:
             ts = gen_types(rng, ["Subset"])
-            sp = {"name": "GAOperator", "variation": {"name": "SSX", "probability": prob_for(rng, False)},
+            sp = fixed or {"name": "GAOperator", "variation": {"name": "SSX", "probability": prob_for(rng, False)},
                   "mutation": {"name": "Replace", "probability": rng.choice([0.3, 1.0])}}
         st = rng.choice(["random", "bound", "identical"])
         return sp, ts, gen_parents(rng, ts, op_arity(sp), st), st, malformed
@@ -964,7 +980,7 @@ def gen_case(rng, opname):
             vs.append({"name": "Swap", "probability": 0.5})
         if rng.random() < 0.5:
             vs.append({"name": "Replace", "probability": 0.5})
-        sp = {"name": "CompoundOperator", "variators": vs}
+        sp = fixed or {"name": "CompoundOperator", "variators": vs}
         st = rng.choice(["random", "bound", "identical"])
         return sp, ts, gen_parents(rng, ts, 2, st), st, malformed
     if opname == "CompoundMutation":
@@ -980,7 +996,7 @@ def gen_case(rng, opname):
             if t["k"] == "Real" and (t["ub"] - t["lb"]) == math.inf:
                 t["lb"], t["ub"] = -1e300, 1e300
         vs = [pool[i] for i in sorted(rng.sample(range(len(pool)), rng.randrange(1, 5)))]
-        sp = {"name": "CompoundMutation", "variators": vs}
+        sp = fixed or {"name": "CompoundMutation", "variators": vs}
         st = rng.choice(["random", "bound"])
         return sp, ts, gen_parents(rng, ts, rng.choice([1, 2]), st), st, malformed
     if opname == "Multimethod":
@@ -993,7 +1009,7 @@ def gen_case(rng, opname):
             if (t["ub"] - t["lb"]) == math.inf:
                 t["lb"], t["ub"] = -1e300, 1e300
         vs = vs[:rng.randrange(2, 5)]
-        sp = {"name": "Multimethod", "variators": vs, "next": rng.randrange(len(vs)), "update_frequency": rng.choice([1, 3, 100])}
+        sp = fixed or {"name": "Multimethod", "variators": vs, "next": rng.randrange(len(vs)), "update_frequency": rng.choice([1, 3, 100])}
         st = rng.choice(["random", "bound", "identical"])
         return sp, ts, gen_parents(rng, ts, op_arity(sp), st), st, malformed
     raise ValueError(opname)
@@ -1093,8 +1109,12 @@ def check_symmetry(ctx, opspec, tspecs, pspecs, rs, r):
     return None
 
 
-def one_case(ctx, opname, opspec, tspecs, pspecs, rs, style, malformed, stats, lits, litinfo):
-    r = run_call(opspec, tspecs, pspecs, rs)
+def one_case(ctx, opname, opspec, tspecs, pspecs, rs, style, malformed, stats, lits, litinfo,
+             op=None, problem=None, history=None):
+    """op / problem: operator instance / Problem object REUSED from earlier calls (history = those calls, so that a
+    failing call can be replayed from a fresh instance)."""
+    r = run_call(opspec, tspecs, pspecs, rs, op=op, problem=problem)
+    hx = {"history": list(history), "same_problem_object": problem is not None} if history is not None else None
     ctx.count()
     st = stats.setdefault(opname, {"calls": 0, "scripted": 0, "wrote": 0, "shipped": 0, "discarded_inexact": 0,
                                    "malformed": 0, "styles": {}, "injected_extremes": 0, "nan_or_inf_candidates": 0})
@@ -1109,13 +1129,21 @@ def one_case(ctx, opname, opspec, tspecs, pspecs, rs, style, malformed, stats, l
         viols = oracle_call(opspec, tspecs, pspecs, rs, r, allow_alias)
         if r["unexpected"]:
             viols.append(("%s:unmodelled-random-primitive" % opname, "the operator called %r" % (r["unexpected"][:3],)))
-        sv = check_symmetry(ctx, opspec, tspecs, pspecs, rs, r)
+        sv = check_symmetry(ctx, opspec, tspecs, pspecs, rs, r) if op is None else None
         if sv:
             viols.append(sv[:2])
         for key, what in viols:
-            ctx.violation(key, what, replay_dict(opspec, tspecs, pspecs, rs, r, {"symmetry": key.endswith("asymmetric")}))
+            extra = {"symmetry": key.endswith("asymmetric")}
+            if hx:
+                extra.update(hx)
+                what = "reused operator instance (call %d on it): %s" % (len(hx["history"]) + 1, what)
+            ctx.violation(key, what, replay_dict(opspec, tspecs, pspecs, rs, r, extra))
     else:
         st["malformed"] += 1
+    if op is not None:
+        st["reused_instance_calls"] = st.get("reused_instance_calls", 0) + 1
+        if problem is not None:
+            st["reused_problem_object_calls"] = st.get("reused_problem_object_calls", 0) + 1
     wrote = r["exc"] is None and any((not c.evaluated) for c in r["out"])
     st["wrote"] += 1 if wrote else 0
     if shippable(r):
@@ -1126,7 +1154,7 @@ def one_case(ctx, opname, opspec, tspecs, pspecs, rs, style, malformed, stats, l
             stats["_inexact_reasons"][why.split(":")[0]] += 1
         else:
             lits.append(case_literal(opspec, tspecs, pspecs, r))
-            litinfo.append((opname, opspec, tspecs, pspecs, rs, malformed))
+            litinfo.append((opname, opspec, tspecs, pspecs, rs, malformed or op is not None))
             st["shipped"] += 1
     if wrote or r["injected"] or style in ("identical", "centroid", "collinear", "bound", "near", "malformed"):
         ctx.mark((opname, json.dumps([opspec, tspecs, pspecs], sort_keys=True, default=str), json.dumps(rs, sort_keys=True)))
@@ -1178,6 +1206,31 @@ def run(ctx):
                 ctx.sample({"operator": opspec, "types": tspecs, "parents": pspecs, "random": rs,
                             "tape": [[e[0], repr(e[1])] for e in r["tape"]][:12],
                             "children": [[repr(v) for v in c.variables._data] + [c.evaluated] for c in r["out"]]})
+    # ---- long-lived operator instances: ONE instance (and its member instances) reused on a sequence of different
+    # problems (same number of variables with other bounds / element sets / sizes / bit widths most of the time; sometimes
+    # the same Problem object with its types re-declared in place).  The models have no instance state, so any dependence
+    # on an instance's history is a replay mismatch, and the oracle judges every call against its OWN problem.
+    nseq, seqlen = ctx.scale(12, 60), 5
+    for opname in ALL_OPS:
+        for _ in range(nseq):
+            base, tspecs, pspecs, style, malformed = gen_case(rng, opname)
+            op = problem = None
+            history = []
+            n0 = len(tspecs)
+            for step in range(seqlen):
+                cur = base
+                if opname == "Multimethod" and op is not None:
+                    if op.next_variator is None:
+                        break
+                    cur = dict(base, next=op.next_variator)
+                if step > 0:
+                    _sp, tspecs, pspecs, style, malformed = gen_case(rng, opname, fixed=cur, nvars=n0 if rng.random() < 0.75 else None)
+                rs = gen_rng_spec(rng, cur)
+                same_obj = problem if (step > 0 and problem is not None and problem.nvars == len(tspecs) and rng.random() < 0.4) else None
+                r, _v = one_case(ctx, opname, cur, tspecs, pspecs, rs, "reused:" + style, malformed, stats, lits, litinfo,
+                                 op=op, problem=same_obj, history=history if step > 0 else None)
+                history.append({"op": cur, "types": tspecs, "parents": pspecs, "rng": rs, "same_problem_object": same_obj is not None})
+                op, problem = r["op"], r["problem"]
     # ---- oracle only: inputs the exact model cannot take (PCX/UNDX/SPX on wide and overflowing bounds)
     extra = 0
     for _ in range(ctx.scale(150, 3000)):
@@ -1211,6 +1264,8 @@ def run(ctx):
     ctx.coverage["input_distribution"] = stats
     ctx.rule = ("per operator (16 operators + GAOperator, CompoundOperator, CompoundMutation, Multimethod): structured problems (1-5 variables, own type + foreign types the "
                 "operator must skip; bounds incl. adjacent floats and ranges whose width overflows; permutations of 1-8 int/str/tuple elements; subsets incl. size = |elements|) "
+                "x operator instance (fresh per call, or ONE long-lived instance reused on 5 successive problems of mostly the same number of variables with other "
+                "bounds/elements/sizes/bit widths, sometimes the same Problem object re-declared in place) "
                 "x parent tuples (random, on bounds, grid, identical, within EPSILON, complementary, last parent at the centroid, collinear) x random stream (seeded CPython "
                 "generator, or primitives scripted to 0, 2^-53, 1-2^-53, 0.5, the operator's own probability, all-zero/all-one bit words, first/last index); "
                 "non-trivial = an offspring was written (flag cleared) or an extreme was injected or the parents are degenerate; distinct by (operator, problem, parents, stream)")
@@ -1230,7 +1285,7 @@ def run(ctx):
         for i in bad[:6]:
             opname, opspec, tspecs, pspecs, rs, malformed = litinfo[i]
             ctx.sample({"model_impl_disagree": {"operator": opspec, "types": tspecs, "parents": pspecs, "random": rs,
-                                                "malformed_parents(correspondence only)": malformed}}, limit=12)
+                                                "malformed_parents_or_reused_instance(no fresh-instance neighbourhood search)": malformed}}, limit=12)
             if malformed:
                 continue      # invalid parents are outside the property: no oracle verdict on them
             for j in range(30):
@@ -1250,13 +1305,18 @@ def replay(ctx, data):
     if rp.get("kind") != "call":
         return run(ctx)
     opspec, tspecs, pspecs, rs = rp["op"], rp["types"], rp["parents"], rp["rng"]
-    r = run_call(opspec, tspecs, pspecs, rs)
+    op = problem = None
+    for h in rp.get("history") or []:      # the earlier calls on the same operator instance, from a fresh instance
+        rh = run_call(h["op"], h["types"], h["parents"], h["rng"], op=op, problem=problem if h.get("same_problem_object") else None)
+        op, problem = rh["op"], rh["problem"]
+        ctx.count()
+    r = run_call(opspec, tspecs, pspecs, rs, op=op, problem=problem if rp.get("same_problem_object") else None)
     ctx.count()
     ctx.sample({"replayed": {"operator": opspec, "exception": r["exc"],
                              "children": None if r["out"] is None else [[repr(v) for v in c.variables._data] + [c.evaluated] for c in r["out"]]}})
     for key, what in oracle_call(opspec, tspecs, pspecs, rs, r):
         ctx.violation(key, "replay: " + what, rp)
-    sv = check_symmetry(ctx, opspec, tspecs, pspecs, rs, r)
+    sv = check_symmetry(ctx, opspec, tspecs, pspecs, rs, r) if not rp.get("history") else None
     if sv:
         ctx.violation(sv[0], "replay: " + sv[1], rp)
     ctx.coverage["explanation"] = "replay of one recorded call of the real operator under the recorded random source; oracle only"
